@@ -107,8 +107,8 @@ pub fn month_day_from_date<S: Src>(s: &mut S, ylo: i32, yhi: i32) {
 }
 
 crate::harnesses! { REGISTRY;
-    c18_year_month_routes_2000 [unwind 6] = |s| year_month_routes(s, 1999, 2001);
-    c18_year_month_limits [unwind 6] = |s| year_month_limits(s);
-    c18_month_day [unwind 6] = |s| month_day(s);
-    c18_month_day_from_date_2000 [unwind 6] = |s| month_day_from_date(s, 1999, 2001);
+    c18_year_month_routes_2000 [unwind 15] = |s| year_month_routes(s, 1999, 2001);
+    c18_year_month_limits [unwind 15] = |s| year_month_limits(s);
+    c18_month_day [unwind 15] = |s| month_day(s);
+    c18_month_day_from_date_2000 [unwind 15] = |s| month_day_from_date(s, 1999, 2001);
 }
